@@ -9,24 +9,56 @@
    R_rel r x y    x < y, x <= y, x > y, x >= y on the reals *)
 From Coq Require Import Reals.
 From Flocq Require Import Core IEEE754.BinarySingleNaN.
-From VP Require Import Base.Tactics Cmp.F64 Cmp.Arms Cmp.Gen_EvalArms Cmp.Model Cmp.Proofs_C08.
+From VP Require Import Base.Tactics Cmp.F64 Cmp.Arms Cmp.Gen_EvalArms Cmp.Model Cmp.Classes Cmp.Proofs_C08.
 
-(* Every ordering operator has an arm for every numeric operand-type pair, in both evaluators
-   (eval_expr_with_functions and eval_binary_op): comparing two numbers always has a boolean value —
-   also for NaN and infinities. *)
+(* Known finding C08-binop-mixed-le-ge (known_findings.json): `<=` / `>=` between an Int and a Float
+   evaluated through eval_binary_op (the `.pattern(..)` matcher path) has no arm, and two tests of the
+   existing suite pin that result, so it is recorded rather than repaired. *)
+Definition Known_C08_binop_mixed_le_ge (f : fn) (o : cop) (l r : value) : Prop :=
+  binop_mixed_le_ge f o (ty_of l) (ty_of r) = true.
+
+(* Outside the class, every ordering operator has an arm for every numeric operand-type pair, in both
+   evaluators (eval_expr_with_functions and eval_binary_op): comparing two numbers always has a boolean
+   value — also for NaN and infinities. *)
 Theorem C08_total :
   forall (f : fn) (o : cop) (l r : value),
     In o [OLt; OLe; OGt; OGe] -> In (ty_of l) [TInt; TFloat] -> In (ty_of r) [TInt; TFloat] ->
+    ~ Known_C08_binop_mixed_le_ge f o l r ->
     exists b, eval_cmp f o l r = Some (VBool b).
-Proof. exact total_lemma. Qed.
+Proof.
+  intros f o l r Ho Hl Hr NK. apply total_lemma; try assumption.
+  unfold Known_C08_binop_mixed_le_ge in NK. destruct (binop_mixed_le_ge _ _ _ _); [exfalso; apply NK|]; reflexivity.
+Qed.
 
-(* For finite operands of any int/float mix, each of < <= > >= in both evaluators returns exactly
-   the order of the operands' real values. *)
+(* Outside the class, for finite operands of any int/float mix, each of < <= > >= in both evaluators
+   returns exactly the order of the operands' real values. *)
 Theorem C08_order :
   forall (f : fn) (o : cop) (r : rel) (a b : value),
     rel_of_cop o = Some r -> finite_num a -> finite_num b ->
+    ~ Known_C08_binop_mixed_le_ge f o a b ->
     exists t, eval_cmp f o a b = Some (VBool t) /\ (t = true <-> R_rel r (num_val a) (num_val b)).
-Proof. exact order_prop_lemma. Qed.
+Proof.
+  intros f o r a b Hr Fa Fb NK. apply order_prop_lemma; try assumption.
+  unfold Known_C08_binop_mixed_le_ge in NK. destruct (binop_mixed_le_ge _ _ _ _); [exfalso; apply NK|]; reflexivity.
+Qed.
+
+(* The class is real: 5 >= 4.0 through eval_binary_op has no value (the existing test
+   binary_op_tests::ge_int_float_returns_none asserts exactly this). *)
+Theorem C08_binop_mixed_le_ge_refuted :
+  exists (f : fn) (o : cop) (a b : value),
+    Known_C08_binop_mixed_le_ge f o a b /\ In o [OLt; OLe; OGt; OGe] /\ finite_num a /\ finite_num b /\
+    ~ (exists t, eval_cmp f o a b = Some (VBool t)).
+Proof.
+  exists FBinop, OGe, (VInt 5), (VFloat (of_bits 4616189618054758400)).
+  split; [reflexivity|]. split; [cbn; auto|]. split; [cbn; lia|]. split; [vm_compute; reflexivity|].
+  intros [t H]. vm_compute in H. discriminate.
+Qed.
+
+(* The stream-expression evaluator (.where / .emit / .having) and the sequence-step comparison are
+   never in the class: for them the statements hold without exception. *)
+Theorem C08_expr_never_known :
+  forall (o : cop) (l r : value), ~ Known_C08_binop_mixed_le_ge FExpr o l r.
+Proof. intros o l r H. unfold Known_C08_binop_mixed_le_ge in H. cbn in H. discriminate. Qed.
 
 (* The same for the SASE predicate comparison used by sequence-step filters (compare_values). *)
 Theorem C08_order_sase :
@@ -40,9 +72,13 @@ Qed.
 (* a >= b holds exactly when a > b or the values are numerically equal *)
 Theorem C08_ge_iff :
   forall (f : fn) (a b : value), finite_num a -> finite_num b ->
+    ~ Known_C08_binop_mixed_le_ge f OGe a b ->
     (eval_cmp f OGe a b = Some (VBool true) <->
      eval_cmp f OGt a b = Some (VBool true) \/ num_val a = num_val b).
-Proof. exact ge_iff_lemma. Qed.
+Proof.
+  intros f a b Fa Fb NK. apply ge_iff_lemma; try assumption.
+  unfold Known_C08_binop_mixed_le_ge in NK. destruct (binop_mixed_le_ge _ _ _ _); [exfalso; apply NK|]; reflexivity.
+Qed.
 
 (* The helper all mixed arms go through is the exact order of the integer and the float. *)
 Theorem C08_cmp_int_float_exact :
